@@ -104,7 +104,7 @@ PROPS["C13"] = dict(
     level_note="Trusted: Lean kernel + standard axioms (Counts.lean imports Mathlib.Tactic.Ring for arithmetic); usize modelled as Nat (depth <= 63 in the tie); TT.depth / TT.paths (canonical-diagram "
                "measures computed from the function) are executable specification without a linking theorem; correspondence is differential over generated sequences (<= 7 variables).",
     technique="Lean 4 proof (induction on the diagram, Shannon counting, path enumeration) + correspondence check against model and truth-table specification",
-    jobs=[Job("bdd", 1000, 40000, size=6, size_thorough=7, fsets=("default", "none", "all"), fsets_thorough=ALL12,
+    jobs=[Job("bdd", 1000, 6000, size=6, size_thorough=7, fsets=("default", "none", "all"), fsets_thorough=ALL12,
               relevant=heads("q", "cubes", "cubecheck", "impact"), nontrivial=nt_bdd),
           Job("persist", 400, 10000, size=5, size_thorough=6, relevant=heads("pq", "pmemocheck"),
               nontrivial=lambda st: int(st.get("trips", 0)) >= 1 and int(st.get("nodes", 0)) >= 3, label="after-import")],
@@ -323,11 +323,11 @@ PROPS["C12"] = dict(
     level_note="Trusted: Lean kernel + standard axioms; ite memo tables of two runs are related by IteAgree (holds along any two runs); frontend is a flag that touches no table (streaming itself is C19); "
                "bin/Cargo.toml feature pass-through is exercised only for the default CLI build (C15).",
     technique="Lean 4 proof (simulation between feature-variant bodies and the reference store) + 3-way / 12-way correspondence of differently built binaries against one model",
-    jobs=[Job("bdd", 600, 15000, size=6, fsets=("none", "default", "all"), fsets_thorough=ALL12, relevant=None, nontrivial=nt_bdd, label="bdd"),
-          Job("adf", 300, 6000, size=5, size_thorough=6, extra=("sem",), fsets=("none", "default", "all"), fsets_thorough=ALL12, relevant=None, nontrivial=nt_adf, label="adf-sem"),
-          Job("adf", 200, 4000, size=5, size_thorough=6, extra=("count",), fsets=("none", "default", "all"), fsets_thorough=ALL12, relevant=None, nontrivial=nt_adf, label="adf-count"),
-          Job("adf", 150, 3000, size=5, size_thorough=6, extra=("ng",), fsets=("none", "default", "all"), fsets_thorough=ALL12, relevant=None, nontrivial=nt_adf, label="adf-ng", timeout=300),
-          Job("adf", 150, 3000, size=5, extra=("hist",), fsets=("none", "default", "all"), fsets_thorough=ALL12, relevant=None, nontrivial=nt_adf, label="adf-hist")],
+    jobs=[Job("bdd", 600, 5000, size=6, fsets=("none", "default", "all"), fsets_thorough=ALL12, relevant=None, nontrivial=nt_bdd, label="bdd"),
+          Job("adf", 300, 2000, size=5, size_thorough=6, extra=("sem",), fsets=("none", "default", "all"), fsets_thorough=ALL12, relevant=None, nontrivial=nt_adf, label="adf-sem"),
+          Job("adf", 200, 1500, size=5, size_thorough=6, extra=("count",), fsets=("none", "default", "all"), fsets_thorough=ALL12, relevant=None, nontrivial=nt_adf, label="adf-count"),
+          Job("adf", 150, 1000, size=5, size_thorough=6, extra=("ng",), fsets=("none", "default", "all"), fsets_thorough=ALL12, relevant=None, nontrivial=nt_adf, label="adf-ng", timeout=300),
+          Job("adf", 150, 1000, size=5, extra=("hist",), fsets=("none", "default", "all"), fsets_thorough=ALL12, relevant=None, nontrivial=nt_adf, label="adf-hist")],
     rule="the generated streams of the diagram family and of the ADF family (profiles sem, count, ng, hist) are executed by harness binaries built with different cargo feature sets of adf_bdd and each "
          "compared with the one Lean model (handle-exact) and the specification; non-trivial = distinct case per (family, feature set) creating >= 3 inner nodes resp. ADF with >= 2 statements and >= 5 nodes",
     assumptions=["the documented exception (memoised model counting with adhoccounting but without adhoccountmodels) is excluded from the comparison and stated as its own lemma"],
